@@ -137,8 +137,7 @@ def h_clone_item(en, con, vals, site):
     w = vals["self"]
     st = xstate(en)
     n = st.fresh_node()
-    st.rep = z3.Store(st.rep, n, z3.Select(st.rep, w.fields["node"]))
-    st.pl = z3.Store(st.pl, n, z3.Select(st.pl, w.fields["node"]))
+    st.copy_ghost(n, w.fields["node"])
     f = {k: v for k, v in w.fields.items() if k in ("x", "y")}
     new = make_wrapper(en, w.cls, n, **f)
     for mname in ("_rmap", "_tmap", "_cmap"):
@@ -492,11 +491,10 @@ def hook_set_item(en, con, vals, site):
     a = lift(v.map(mname).term.sel(i)) - (position + pre.item.rep - 1)
     n_new, n_cur = st.fresh_node(), st.fresh_node()
     cur_pl, cur_rep = z3.Select(st.pl, cur), z3.Select(st.rep, cur)
+    st.copy_ghost(n_new, pre.item.node)
+    st.copy_ghost(n_cur, cur)
     st.rep = z3.Store(st.rep, cur, z3.If(b >= 1, b, cur_rep))
-    st.rep = z3.Store(st.rep, n_new, pre.item.rep)
-    st.pl = z3.Store(st.pl, n_new, pre.item.pl)
     st.rep = z3.Store(st.rep, n_cur, z3.If(a >= 1, a, 1))
-    st.pl = z3.Store(st.pl, n_cur, cur_pl)
     _install(en, vault, mname, kind, exp, n_new, n_cur)
     if isinstance(clone, z3.ExprRef):
         if en.decide(clone):
@@ -515,11 +513,10 @@ def hook_insert_item(en, con, vals, site):
     b = position - start
     n_new, n_cur = st.fresh_node(), st.fresh_node()
     cur_pl, cur_rep = z3.Select(st.pl, cur), z3.Select(st.rep, cur)
+    st.copy_ghost(n_new, pre.item.node)
+    st.copy_ghost(n_cur, cur)
     st.rep = z3.Store(st.rep, cur, z3.If(b >= 1, b, cur_rep))
-    st.rep = z3.Store(st.rep, n_new, pre.item.rep)
-    st.pl = z3.Store(st.pl, n_new, pre.item.pl)
     st.rep = z3.Store(st.rep, n_cur, z3.If(b >= 1, cur_rep - b, 1))
-    st.pl = z3.Store(st.pl, n_cur, cur_pl)
     _install(en, vault, mname, kind, exp, n_new, n_cur)
     return make_wrapper(en, item.cls, n_new, x=item.fields.get("x"), y=item.fields.get("y"))
 
